@@ -16,6 +16,7 @@ mod h_c12;
 mod h_c17;
 mod h_proc;
 mod h_ps;
+mod h_reloc;
 mod h_rr;
 mod h_thr;
 mod h_ws;
@@ -59,6 +60,7 @@ fn harnesses() -> Vec<Box<dyn Harness>> {
         Box::new(h_c12::AtomicHarness { typed: false }),
         Box::new(h_c12::AtomicHarness { typed: true }),
         Box::new(h_zc::ConnLifecycleHarness),
+        Box::new(h_reloc::RelocHarness),
         Box::new(h_c17::ShutdownHarness { ipc: false }),
         Box::new(h_c17::ShutdownHarness { ipc: true }),
         Box::new(h_ws::WaitSetHarness { ipc: false }),
@@ -97,6 +99,7 @@ fn spec_for<'a>(hs: &'a [Box<dyn Harness>], prop: &'a str) -> CheckSpec<'a> {
         "C04" => "one evaluation = one controlled execution of 2 real processes on the ipc variant: a victim performing a lifecycle segment (node, service open/create, port, send/receive, event service + notifier, orderly drop) and a survivor that shares (or not) the service; the controller steps both at every wrapped system call and every atomic operation on shared memory, kills the victim with SIGKILL at a chosen yield (anywhere / biased into constructors / biased into destructors), advances virtual time past the timeouts, and then lets the survivor list nodes, clean up, re-open the service, create fresh ports and do a round trip; afterwards the files the victim alone created must be gone. distinct_nontrivial = distinct (scenario, schedule, kill point) signatures",
         "C06" => "one evaluation = one controlled execution of 2..4 real processes that create / open / open_or_create / drop the same publish-subscribe service name, each with its own settings or requirements (max publishers 2..3, max subscribers 2..3, history 0..1), interleaved by the controller at system-call and shared-memory-atomic granularity with a virtual clock; from the recorded call/return/drop observations the oracle checks: overlapping handles report identical settings, a creator's handle reports exactly its settings, no create succeeds while another process holds the service during the whole call, incompatible opens are refused and compatible ones accepted when the service lives during the whole call, every handle is usable at once, nobody ends in HangsInCreation/corrupted state, and no service resource remains after the last drop. distinct_nontrivial = distinct (scenario, schedule) signatures",
         "C07" => "one evaluation = one controlled execution of 2..4 real processes: a victim node going through creation, use and orderly destruction (or killed at a chosen yield) and 1..3 monitors/cleaners that list nodes and try to clean up, interleaved at system-call and shared-memory-atomic granularity with a virtual clock; a live process must never be reported Dead or be cleaned up, a killed one must not be reported Alive for ever, and at most one cleaner may succeed. distinct_nontrivial = distinct (scenario, schedule, kill point) signatures",
+        "C14" => "one evaluation = one simulated history of 4..40 operations on one relocatable structure (RelocatableVec/Queue/String/SlotMap/FlatMap, both index queues, both index sets, bit set, registry container, used-chunk list, shm pool and bump allocator management blocks, and the FixedSize flavours) built inside an mmap'ed arena, executed in lock-step on an identical twin; at seeded points (before first use and/or between operations, probability 0.05/0.15/0.4 per operation) the arena is copied byte for byte to a fresh mapping and the old mapping is scrambled and made inaccessible for the rest of the run; every observation (return value, length, full contents, offsets handed out by the allocators) must equal the twin's, and any access to an old address kills the forked run (reported with operation and fault address). distinct_nontrivial = distinct (structure, capacity, history incl. relocation points) plans",
         "C09" => "one evaluation = one simulated execution of 2..3 threads doing generated acquire/release(/lock-if-last) sequences on a real index set or pool allocator of capacity 1..4, one run in four of the robust set kills a thread mid-operation and recovers its owner id; distinct_nontrivial = distinct (plan, schedule/fault signature) pairs among runs with at least one context switch or injected fault",
         _ => "one evaluation = one simulated execution of a generated scenario; distinct_nontrivial = distinct (plan, schedule/fault signature) pairs among runs with at least one context switch or injected fault",
     };
